@@ -19,6 +19,7 @@ Inductive op :=
 | ORestore (r : nat) (b : backend) (force : bool) (c : list N)  (* T::from_checkpoint(c) / force_from_checkpoint *)
 | ORestoreFrom (r : nat) (b : backend) (force : bool) (r2 : nat)(* from_checkpoint(reg[r2].checkpoint()) *)
 | OClone (r r2 : nat)                                           (* reg[r] = reg[r2].clone() *)
+| OCloneFrom (r r2 : nat)                                       (* reg[r].clone_from(&reg[r2]): same hasher type, r <> r2 *)
 | OAppend (r : nat) (d : list N)                                (* HighwayHash::append *)
 | OWrite (r : nat) (d : list N)                                 (* io::Write::write -> Ok(n) *)
 | OWriteAll (r : nat) (d : list N)                              (* io::Write::write_all -> Ok(()) *)
@@ -125,6 +126,14 @@ Definition h_debug (e : env) (h : hasher) : res out :=
 Definition h_finish (e : env) (h : hasher) : res N :=
   do c <- h_clone e h ;; do d <- h_finalize e W64 c ;; Ok (nth0 d 0).
 
+(* the two values are hashers of the same Rust type *)
+Definition same_type (a b : hasher) : bool :=
+  match a, b with
+  | HPlain (CP _), HPlain (CP _) | HPlain (CS _), HPlain (CS _) | HPlain (CA _), HPlain (CA _)
+  | HPlain (CN _), HPlain (CN _) | HPlain (CW _), HPlain (CW _) | HDisp _, HDisp _ => true
+  | _, _ => false
+  end.
+
 Definition of_res {A} (rs : regs) (r : res A) (k : A -> regs * list out) : regs * list out * bool :=
   match r with
   | Ok a => (k a, true)
@@ -153,6 +162,11 @@ Definition step (e : env) (rs : regs) (o : op) : regs * list out * bool :=
                              | Panic => ((rs, [OutPanic]), false)
                              | Fault => ((rs, [OutFault]), false) end)
   | OClone r r2 => with_reg r2 (fun h => of_res rs (h_clone e h) (fun h' => (store rs r h', [OutOk])))
+  | OCloneFrom r r2 =>
+      (* Clone::clone_from: the derived / default implementation is  *self = source.clone()  *)
+      with_reg r (fun h1 => with_reg r2 (fun h2 =>
+        if Nat.eqb r r2 || negb (same_type h1 h2) then ill
+        else of_res rs (h_clone e h2) (fun h' => (store rs r h', [OutOk]))))
   | OAppend r d => appending r d [OutOk]
   | OWrite r d => appending r d [OutW (N.of_nat (length d))]
   | OWriteAll r d => appending r d [OutOk]
